@@ -365,6 +365,9 @@ func (n *WorkflowNode) checkAndAddMappedPath(paths []FieldPath) error {
 	}
 
 	for _, targetPath := range paths {
+		// a field promoted from an embedded struct is written with its full path, so that it is seen to overlap with a
+		// mapping to the embedded struct itself
+		targetPath = canonicalTargetPath(n.g.getNodeInputType(n.key), targetPath)
 		m := n.mappedFieldPath[""].(map[string]any)
 		var traversed FieldPath
 		for i, path := range targetPath {
@@ -392,6 +395,45 @@ func (n *WorkflowNode) checkAndAddMappedPath(paths []FieldPath) error {
 	}
 
 	return nil
+}
+
+// canonicalTargetPath spells out the embedded structs a promoted field name goes through: for
+// struct{ Base; H string } with Base{F string}, ["F"] becomes ["Base", "F"]. Where the type is unknown (a pass-through
+// node, an interface, a map value of interface type) the rest of the path is kept as it is.
+func canonicalTargetPath(typ reflect.Type, path FieldPath) FieldPath {
+	out := make(FieldPath, 0, len(path))
+	for i, name := range path {
+		for typ != nil && typ.Kind() == reflect.Ptr {
+			typ = typ.Elem()
+		}
+		if typ == nil {
+			return append(out, path[i:]...)
+		}
+		switch typ.Kind() {
+		case reflect.Map:
+			out = append(out, name)
+			typ = typ.Elem()
+		case reflect.Struct:
+			sf, ok := typ.FieldByName(name)
+			if !ok {
+				return append(out, path[i:]...)
+			}
+			t := typ
+			for _, idx := range sf.Index[:len(sf.Index)-1] {
+				f := t.Field(idx)
+				out = append(out, f.Name)
+				t = f.Type
+				for t.Kind() == reflect.Ptr {
+					t = t.Elem()
+				}
+			}
+			out = append(out, name)
+			typ = sf.Type
+		default:
+			return append(out, path[i:]...)
+		}
+	}
+	return out
 }
 
 type WorkflowBranch struct {
